@@ -168,6 +168,13 @@ pub enum ConnectionDirection {
 #[derive(Debug, Clone, PartialEq, Eq)]
 pub struct WhoAreYouRef(pub NodeAddress, MessageNonce);
 
+#[cfg(feature = "verif-hooks")]
+impl WhoAreYouRef {
+    pub(crate) fn verif_new(node_address: NodeAddress, nonce: MessageNonce) -> Self {
+        WhoAreYouRef(node_address, nonce)
+    }
+}
+
 #[derive(Debug)]
 /// A Challenge (WHOAREYOU) object used to handle and send WHOAREYOU requests.
 pub struct Challenge {
